@@ -44,17 +44,25 @@ def tier_cycles(tier):
 
 def bounds(tier):
     return {
-        "collection_types": G.KINDS, "poles": list(G.POLES), "deviation_bound": tier_k(tier),
-        "cycles": tier_cycles(tier), "axes": len(G.AXES_DECL), "axis_names": G.AXIS_NAMES,
+        "collection_types": G.KINDS, "poles": list(G.POLES),
+        "deviation_bound": {p: pole_k(tier, p) for p in G.POLES},
+        "cycles": "%d (2 for configurations with 3 deviations)" % tier_cycles(tier), "axes": len(G.AXES_DECL), "axis_names": G.AXIS_NAMES,
         "field_audit": G.audit(),
     }
 
 
-def blocks(tier):
+def pole_k(tier, pole):
+    """Deviation bound per pole: thorough explores 3 deviations from the skeleton and maximal poles (the minimal pole cannot
+    reach nested fields within 3 deviations anyway) and 2 from the minimal pole."""
     k = tier_k(tier)
+    return 2 if (tier != "quick" and pole == "minimal") else k
+
+
+def blocks(tier):
     out = []
     for kind in G.KINDS:
         for p in G.POLES:
+            k = pole_k(tier, p)
             n = sum(1 for _ in G.cases(kind, k, [p]))
             nchunks = max(1, min(64, n // 400))
             for i in range(nchunks):
@@ -66,7 +74,9 @@ def run_block(block, rec):
     for idx, (j, p, delta) in enumerate(G.cases(block["kind"], block["k"], [block["pole"]])):
         if idx % block["of"] != block["i"]:
             continue
-        rec.add(run_case({"kind": block["kind"], "pole": p, "delta": delta, "dev": j, "cycles": block["cycles"]}))
+        # three cycles for the configurations within 2 deviations, two for the (much more numerous) 3-deviation ones
+        cycles = block["cycles"] if j <= 2 else min(block["cycles"], 2)
+        rec.add(run_case({"kind": block["kind"], "pole": p, "delta": delta, "dev": j, "cycles": cycles}))
 
 
 def data_section(text):
